@@ -97,15 +97,12 @@ inline void makeInput(const Spec& spec, const std::vector<Particle>& parts,
             const Real centre = Real(spec.centre[d]), width = Real(spec.widths[d]);
             const Real corner = centre + width * (-Real(1)/Real(2));
             const Real unit = width / Real(cells);
-            Real pos = (parts[i].lat[d] == cells ? corner + width : corner + Real(parts[i].lat[d]) * unit);
+            Real pos = (parts[i].lat[d] == cells ? centre + width / Real(2) : corner + Real(parts[i].lat[d]) * unit);
             pos = realNudge(pos, parts[i].nudge[d]);
             // keep the input valid: inside the closed box in exact arithmetic
             const long double lo = (long double)centre - (long double)width/2, hi = (long double)centre + (long double)width/2;
             while((long double)pos > hi) pos = std::nextafter(pos, -std::numeric_limits<Real>::infinity());
             while((long double)pos < lo) pos = std::nextafter(pos, std::numeric_limits<Real>::infinity());
-            // ... and inside it as the library measures it (its documented precondition: 0 <= pos-corner <= width)
-            while(Real(pos - corner) > width) pos = std::nextafter(pos, -std::numeric_limits<Real>::infinity());
-            while(Real(pos - corner) < 0) pos = std::nextafter(pos, std::numeric_limits<Real>::infinity());
             input[i][d] = DataT(pos);
         }
         for(int v = Dim ; v < NbData ; ++v){
